@@ -108,9 +108,11 @@ NestedEnd(np) ==
   /\ live' = live \ {np} /\ pooled' = pooled \cup {np}
   /\ UNCHANGED <<dead, results, fresh>>
 
-\* a panic that propagates out of the printer: it is never freed (garbage)
+\* a panic that propagates out of a top-level printer: it is never freed (garbage).  A NESTED printer is not abandoned
+\* any more: since the repair of F10 pp.Print / pp.Printf hand the buffer back and free it in a deferred call, i.e. the
+\* panic path of a nested printer is NestedEnd (its restorers have been popped by their own deferred calls by then).
 Abandon(p) ==
-  /\ p \in live /\ Idle(p)
+  /\ p \in live /\ Idle(p) /\ f[p].lender = None /\ \A q \in live : f[q].lender # p
   /\ live' = live \ {p} /\ dead' = dead \cup {p}
   /\ UNCHANGED <<pooled, f, results, fresh>>
 
